@@ -516,7 +516,7 @@ func (e *emitter) zs(name string, v []int64, ok bool, def []int64, src string) {
 func newEmitter(title string) *emitter {
 	e := &emitter{facts: map[string]interface{}{}}
 	fmt.Fprintf(&e.sb, "(* GENERATED by harness/cmd/srcfacts from the repository working tree: %s.\n   Do not edit; regenerated on every check run. *)\n", title)
-	e.sb.WriteString("From Coq Require Import ZArith String List.\nImport ListNotations.\nOpen Scope Z_scope.\n\n")
+	e.sb.WriteString("From Coq Require Import ZArith String List.\nImport ListNotations.\nLocal Open Scope Z_scope.\nLocal Open Scope list_scope.\n\n")
 	return e
 }
 
